@@ -12,7 +12,17 @@ PASSIVE = ['resistor', 'conductor', 'impedance', 'admittance', 'load_v', 'load_i
 KINDS = PASSIVE + ['ideal_v', 'ideal_i', 'lin_v', 'lin_i']
 
 
+# label quadruples whose pairwise concatenations collide ('1'+'12' == '11'+'2'): a lookup keyed by joined labels confuses two node pairs
+COLLIDING = [['1', '12', '11', '2'], ['a', 'bc', 'ab', 'c'], ['n1', '0', 'n', '10'], ['1', '23', '12', '3']]
+
+
 def pick_labels(rng, pool, k):
+    if pool is NODE_POOL and k >= 4 and rng.random() < 0.12:
+        fam = list(rng.choice(COLLIDING))
+        rest = [x for x in rng.sample(pool, k) if x not in fam][:k - 4]
+        out = fam + rest
+        rng.shuffle(out)
+        return out
     return rng.sample(pool, k)
 
 
